@@ -487,6 +487,30 @@ def _ortho_rewrite(coef, bound, facs):
     return None
 
 
+def _factorisation_rewrite(coef, bound, facs):
+    """sum_k U[i,k] (S[k]) V[k,j] -> M[i,j] for a registered exact factorisation, when k occurs nowhere else."""
+    for chain, (mi, mj, mbody) in FACTORISATIONS:
+        for v in bound:
+            occ = [(a, e) for a, e in facs.items() if v in a_vars(a)]
+            if len(occ) != len(chain) or any(e != 1 or a[0] != "E" or a[3] for a, e in occ):
+                continue
+            by = {a[1]: a for a, _ in occ}
+            if set(by) != set(chain) or len(by) != len(chain):
+                continue
+            U, V = by[chain[0]], by[chain[-1]]
+            if len(U[2]) != 2 or len(V[2]) != 2 or U[2][1] != v or V[2][0] != v or U[2][0] == v or V[2][1] == v:
+                continue
+            if len(chain) == 3:
+                Sa = by[chain[1]]
+                if Sa[2] != (v,):
+                    continue
+            nf = {a: e for a, e in facs.items() if a not in [o[0] for o in occ]}
+            rest = Term(coef, [b for b in bound if b != v], nf)
+            body = rename_apart(mbody).subst({mi: U[2][0], mj: V[2][1]})
+            return [t_mul(rest, t) for t in body.terms]
+    return None
+
+
 def _is_real(expr):
     for t in expr.terms:
         for a, _ in t.facs:
@@ -563,6 +587,17 @@ def simplify_term(t):
             if ne != e:
                 rest = Term(t.coef, t.bound, facs[:i] + facs[i + 1:] + [(a, ne)])
                 return simplify_term(rest)
+    # hypothesis rewriting first (before concrete-size expansion destroys the contraction pattern)
+    if t.bound and (FACTORISATIONS or ORTHO):
+        d0 = dict(t.facs)
+        if FACTORISATIONS:
+            hit = _factorisation_rewrite(t.coef, list(t.bound), d0)
+            if hit is not None:
+                return [s2 for h in hit for s2 in simplify_term(h)]
+        if ORTHO:
+            hit = _ortho_rewrite(t.coef, list(t.bound), d0)
+            if hit is not None:
+                return simplify_term(hit)
     # bound variables of small concrete size are expanded (so that sum_j delta(s,j) f(j) == f(s))
     for v in t.bound:
         n = VSIZE[v]
@@ -662,6 +697,13 @@ def simplify_term(t):
         hit = _ortho_rewrite(coef, bound, facs)
         if hit is not None:
             return simplify_term(hit)
+    if FACTORISATIONS:
+        hit = _factorisation_rewrite(coef, bound, facs)
+        if hit is not None:
+            out = []
+            for h in hit:
+                out.extend(simplify_term(h))
+            return out
     # unused bound variables -> size factor
     used = set()
     for a in facs:
@@ -745,6 +787,9 @@ RULES = {"sign_sq_one": False}
 # hypothesis rewriting (assumed contracts of svd/qr/eigh results): name -> axis over which the matrix is orthonormal,
 # i.e. sum_i U[i,a] conj(U[i,b]) = delta(a,b) when axis == 0  (orthonormal columns), axis == 1: orthonormal rows.
 ORTHO = {}
+# exact-factorisation hypotheses: list of (chain, M) with chain = (Uname, Vname) meaning sum_k U[i,k] V[k,j] = M[i,j]
+# or chain = (Uname, Sname, Vname) meaning sum_k U[i,k] S[k] V[k,j] = M[i,j];  M = (axes_i_var, axes_j_var, body Expr)
+FACTORISATIONS = []
 
 
 def term_key(t, ren, depth, want_ren=False):
